@@ -217,6 +217,10 @@ impl<'tcx> Cx<'tcx> {
                     LitKind::Char(c) => ("char", c.to_string()),
                     LitKind::Float(s, _) => ("float", s.to_string()),
                     LitKind::Byte(b) => ("byte", b.to_string()),
+                    LitKind::ByteStr(ref bs, _) => (
+                        "bytes",
+                        bs.as_byte_str().iter().map(|b| format!("{:02x}", b)).collect::<String>(),
+                    ),
                     _ => ("other", String::new()),
                 };
                 o.set("lit", J::s(lk));
